@@ -429,3 +429,6 @@ def run_case(case):
     out.nontrivial = at >= 1 and before >= 1 and after >= 2
     out.info = {"observations": len(obs), "kept": len(kept), "published": published["n"]}
     return out
+
+
+RULE = RULE + " " + "Later additions: a second statistic of each kind with the same descriptive name, wired through the constructor arguments producer= / event_type= to queue-like (falsy) producers, reports what the first reports; drive 'excl' (exclusive bound, then start())."
